@@ -464,6 +464,8 @@ impl<T: Object> DeepClone for Lazy<T> {
 }
 impl<T: Object + DataSize> Lazy<T> {
     pub fn load(&self, resolve: &impl Resolve) -> Result<MaybeRef<T>> {
+        #[cfg(pdf_rs_pdf_verif)]
+        let _verif_scope = crate::verif::lazy_scope(&self.cache as *const _ as usize, self.cache.get().is_some());
         self.cache.get_or_try_init(|| {
             match self.primitive {
                 Primitive::Reference(r) => resolve.get(Ref::new(r)).map(MaybeRef::Indirect),
